@@ -821,3 +821,31 @@ def fold_prog(rng):
 
 def asm_ops_r():
     return ["add", "sub", "and", "or", "xor", "sll", "srl", "sra", "slt", "sltu", "mul", "mulh", "mulhsu", "mulhu", "div", "divu", "rem", "remu"]
+
+
+def loop_fn_prog(rng):
+    """callers before their callees; leaf helpers; functions whose return value is assigned inside while / do-while loops
+    (exit test at the head or at the bottom), nested or followed by further functions: the shapes in which a backward
+    dataflow sweep needs several rounds to carry a use from after the call to the definition inside the loop"""
+    nf = rng.randrange(1, 4)
+    L = ["main:", "li a0, %d" % rng.randrange(1, 9)]
+    for i in range(nf):
+        if rng.random() < 0.5:
+            L += ["jal ra, help%d" % i]
+        L += ["li a0, %d" % rng.randrange(1, 9), "jal ra, lf%d" % i]
+        L += rng.choice([["li a7, 1", "ecall"], ["add a1, a0, a0", "mv a0, a1", "li a7, 1", "ecall"], ["mv s1, a0"]])
+    L += ["li a7, 10", "ecall"]
+    for i in range(nf):
+        if rng.random() < 0.6:
+            L += ["help%d:" % i, "li a7, %d" % rng.choice([4, 1, 11]), "ecall", "ret"]
+        L += ["lf%d:" % i, "mv t0, a0", "li a0, 0"]
+        if rng.random() < 0.6:      # while loop
+            L += ["lp%d:" % i, "beq t0, zero, dn%d" % i]
+            L += rng.choice([["mv a0, t0"], ["add a0, a0, t0"], ["addi a0, t0, 1"], ["slli a0, t0, 1", "addi t1, a0, 0"]])
+            if rng.random() < 0.3:
+                L += ["andi t2, t0, 1", "beqz t2, sk%d" % i, "addi a0, a0, 1", "sk%d:" % i]
+            L += ["addi t0, t0, -1", "j lp%d" % i, "dn%d:" % i]
+        else:                       # do-while
+            L += ["lp%d:" % i, rng.choice(["mv a0, t0", "add a0, a0, t0"]), "addi t0, t0, -1", "bnez t0, lp%d" % i]
+        L += ["ret"]
+    return "\n".join(L) + "\n"
